@@ -29,6 +29,8 @@ type sfCall struct {
 	beg, end int
 	out      string
 	val      int
+	rec      *call[int] // the record the invocation was registered under when it started
+	forgot   bool       // the invocation has called Group.Forget for its key (as LoadingStore.Get does)
 }
 
 type sfRes struct {
@@ -42,6 +44,7 @@ type sfRes struct {
 }
 
 type sfRun struct {
+	bad      []string
 	g        *Group[int, int]
 	calls    []*sfCall
 	results  []*sfRes
@@ -76,7 +79,20 @@ func sfKey(r *sfRun) string {
 	for _, it := range g.callPool.Items() {
 		rec(it.(*call[int]))
 	}
-	fmt.Fprintf(&b, "|n%d,f%d|", len(r.calls), r.finished)
+	// invariant: an invocation that is running and has not forgotten its key is the registered call of that key
+	for n, c := range r.calls {
+		if c.end == 0 && !c.forgot && c.rec != nil && g.m[c.key] != c.rec {
+			msg := fmt.Sprintf("invocation #%d for key %d is running but is no longer the registered call of its key", n, c.key)
+			dup := false
+			for _, x := range r.bad {
+				dup = dup || x == msg
+			}
+			if !dup {
+				r.bad = append(r.bad, msg)
+			}
+		}
+	}
+	fmt.Fprintf(&b, "|bad%d|n%d,f%d|", len(r.bad), len(r.calls), r.finished)
 	for _, c := range r.calls {
 		fmt.Fprintf(&b, "%d:%s:%v,", c.key, c.out, c.end != 0)
 	}
@@ -91,6 +107,7 @@ func sfKey(r *sfRun) string {
 }
 
 type sfCfg struct {
+	forget  bool // fn calls Group.Forget(key) just before it returns / panics (the store's usage)
 	name    string
 	plan    []string // outcome of the i-th fn invocation
 	scripts [][]int  // keys each thread calls Do on, in order
@@ -159,9 +176,17 @@ func sfBody(cfg sfCfg) (*sfRun, func()) {
 							c.beg = r.clock
 							r.calls = append(r.calls, c)
 							x.ran = n
+							c.rec = r.g.m[k]
 							vrt.Yield("fn", "")
 							r.clock++
 							c.end = r.clock
+							if cfg.forget {
+								// the store forgets the call after the loader has returned, while it still
+								// holds the shard lock; here nothing serialises invocations, so the
+								// invocation counts as over before the key is forgotten
+								r.g.Forget(k)
+								c.forgot = true
+							}
 							switch c.out {
 							case "err":
 								return 0, errors.New("fn failed")
@@ -205,6 +230,9 @@ func sfCheck(res *vh.Result, cfg sfCfg) func(r *sfRun, x *vrt.Sched, cost int) {
 		if x.ErrKind != "" {
 			viol(x.ErrKind, firstLine(x.Err), x.Err)
 			return
+		}
+		for _, b := range r.bad {
+			viol("running-call-unregistered", "registration-removed-by-another-call", b)
 		}
 		if r.finished != len(cfg.scripts) {
 			viol("deadlock", "caller-never-returned", fmt.Sprintf("%d of %d threads finished: %v", r.finished, len(cfg.scripts), stuckNow("t")))
@@ -282,14 +310,16 @@ func sfCheck(res *vh.Result, cfg sfCfg) func(r *sfRun, x *vrt.Sched, cost int) {
 
 func sfCfgs() []sfCfg {
 	return []sfCfg{
-		{"ok-3", []string{"ok"}, [][]int{{1}, {1}, {1}}},
-		{"err-late", []string{"err", "ok"}, [][]int{{1, 1}, {1}}},
-		{"panic-2", []string{"panic", "ok"}, [][]int{{1}, {1, 1}}},
-		{"exit-2", []string{"exit", "ok"}, [][]int{{1}, {1, 1}}},
-		{"reuse-2keys", []string{"ok", "ok", "ok"}, [][]int{{1, 2}, {1, 2}}},
-		{"panic-reuse", []string{"panic", "ok", "ok"}, [][]int{{1, 2}, {1, 2}}},
-		{"reuse-3t", []string{"ok", "ok", "ok"}, [][]int{{1, 2}, {1}, {2}}},
-		{"panic-reuse-3t", []string{"panic", "ok", "ok"}, [][]int{{1, 2}, {1}, {2}}},
+		{name: "ok-3", plan: []string{"ok"}, scripts: [][]int{{1}, {1}, {1}}},
+		{name: "err-late", plan: []string{"err", "ok"}, scripts: [][]int{{1, 1}, {1}}},
+		{name: "panic-2", plan: []string{"panic", "ok"}, scripts: [][]int{{1}, {1, 1}}},
+		{name: "exit-2", plan: []string{"exit", "ok"}, scripts: [][]int{{1}, {1, 1}}},
+		{name: "forget-err-3", forget: true, plan: []string{"err", "ok", "ok"}, scripts: [][]int{{1}, {1}, {1}}},
+		{name: "forget-panic-3", forget: true, plan: []string{"panic", "ok", "ok"}, scripts: [][]int{{1}, {1}, {1}}},
+		{name: "reuse-2keys", plan: []string{"ok", "ok", "ok"}, scripts: [][]int{{1, 2}, {1, 2}}},
+		{name: "panic-reuse", plan: []string{"panic", "ok", "ok"}, scripts: [][]int{{1, 2}, {1, 2}}},
+		{name: "reuse-3t", plan: []string{"ok", "ok", "ok"}, scripts: [][]int{{1, 2}, {1}, {2}}},
+		{name: "panic-reuse-3t", plan: []string{"panic", "ok", "ok"}, scripts: [][]int{{1, 2}, {1}, {2}}},
 	}
 }
 
